@@ -60,6 +60,7 @@ type Contract struct {
 	Params   []string // explicit parameter names (trusted specs for functions without source names)
 	Used     bool
 	Holds    []HoldsClause // holds <monitor> <owner expr>: the caller holds the lock for the whole call
+	RangeInvs []Clause // rangeloop invariant: induction hypothesis for range-over-func loops (over the variables the body assigns)
 	HeapFacts string // "on"/"off": force or suppress the quantified typing facts of fresh heap versions (default: by need)
 	ConstCaptures []string // captured variables assumed not to change during the call (listed as trusted)
 	Shell    bool          // an empty contract made up for a critical-section unit: callee preconditions are assumed, not proved
@@ -153,7 +154,7 @@ var clauseKeywords = map[string]bool{
 	"ghost": true, "loop": true, "nopanic": true, "trusted": true, "panics": true, "track": true, "global-invariant": true,
 	"monitor": true, "invariant": true, "transition": true, "lemma": true, "axiom": true, "inline": true, "assert": true,
 	"props": true, "params": true, "protects": true, "snapshot": true, "abstract": true, "callee": true, "ghostvar": true, "on": true, "state": true, "closeonly": true, "assume": true, "freshcounter": true,
-	"trust-section": true, "unpublished": true, "holds": true, "constant": true, "heapfacts": true,
+	"trust-section": true, "unpublished": true, "holds": true, "constant": true, "heapfacts": true, "rangeloop": true,
 }
 
 type rawClause struct {
@@ -528,6 +529,16 @@ func (db *SpecDB) LoadSpecFile(path, pkgPath string) error {
 				}
 			case "inline":
 				cur.Inline = true
+			case "rangeloop":
+				body := strings.TrimSpace(rc.rest)
+				if !strings.HasPrefix(body, "invariant") {
+					return fmt.Errorf("%s:%d: rangeloop needs 'invariant expr'", path, rc.line)
+				}
+				c, err := mk(rawClause{"invariant", strings.TrimSpace(body[len("invariant"):]), rc.line}, fmt.Sprint(len(cur.RangeInvs)+1))
+				if err != nil {
+					return err
+				}
+				cur.RangeInvs = append(cur.RangeInvs, c)
 			case "heapfacts":
 				cur.HeapFacts = strings.TrimSpace(rc.rest)
 			case "constant":
